@@ -52,10 +52,20 @@ fn sysst_json(s: SyscallState) -> Value {
     }
 }
 
+/// the text a body panics with for message number `k`: several lines, like an `assert_eq!` failure
+pub fn panic_text(k: u64) -> String {
+    format!("m{k}\n  left: {k}\n right: {}", k.wrapping_add(1))
+}
+
 pub fn msg_json(m: &str) -> Value {
     if let Some(rest) = m.strip_prefix('m') {
-        if let Ok(k) = rest.parse::<u64>() {
-            return json!({"k": k});
+        if let Some(first) = rest.lines().next() {
+            if let Ok(k) = first.parse::<u64>() {
+                // only the complete message counts as message k
+                if m == panic_text(k) {
+                    return json!({"k": k});
+                }
+            }
         }
     }
     if m.contains("failed without message") {
@@ -183,10 +193,10 @@ fn interpret(i: usize, body: &[Value], s: &Suspender<u64, u64>, p0: u64) -> u64 
                 blog(i, json!({"e": "panic", "k": kind, "m": ins["m"].clone()}));
                 match kind {
                     "static" => {
-                        let m: &'static str = Box::leak(format!("m{}", as_u64(&ins["m"])).into_boxed_str());
+                        let m: &'static str = Box::leak(crate::areas::co::panic_text(as_u64(&ins["m"])).into_boxed_str());
                         std::panic::panic_any(m)
                     }
-                    "owned" => std::panic::panic_any(format!("m{}", as_u64(&ins["m"]))),
+                    "owned" => std::panic::panic_any(crate::areas::co::panic_text(as_u64(&ins["m"]))),
                     _ => std::panic::panic_any(42u32),
                 }
             }
